@@ -317,9 +317,10 @@ def ddmin_list(items, test):
     return items
 
 
-def minimise(prop, prog, sig, budget=400):
+def minimise(prop, prog, sig, budget=None):
     """Shrink ops (ddmin), then property-specific simplifications, keeping the
     same violation signature.  Returns (program, result)."""
+    budget = budget or getattr(prop, "MINIMISE_BUDGET", 400)
     calls = [0]
     best = copy.deepcopy(prog)
     ok, best_res = has_sig(prop, best, sig)
@@ -339,6 +340,16 @@ def minimise(prop, prog, sig, budget=400):
         ok, _ = has_sig(prop, cand, sig)
         return ok
 
+    if hasattr(prop, "presimplify"):
+        # cheap-first: simplifications that make every later candidate run cheaper (e.g. smaller buffers => smaller step budgets)
+        for cand in prop.presimplify(copy.deepcopy(best)):
+            if calls[0] >= budget:
+                break
+            calls[0] += 1
+            ok, _ = has_sig(prop, cand, sig)
+            if ok:
+                best = cand
+                break
     if isinstance(best.get("ops"), list) and len(best["ops"]) > 1:
         keep = getattr(prop, "PINNED_OPS", 0)
         head, tail = best["ops"][:keep], best["ops"][keep:]
@@ -554,7 +565,7 @@ def check_main(prop, argv=None):
             # enough replay files for one batch: further signatures are listed, not minimised
             extra_sigs.append(s)
             continue
-        if n < 12:
+        if n < getattr(prop, "MAX_MINIMISED", 12):
             minimised, res = minimise(prop, prog, s)
         if minimised is None:
             ok, res = has_sig(prop, prog, s)
